@@ -176,30 +176,18 @@ let handle (line : ostring) : ostring =
       oconcat " " (List.map (fun nm -> show_origin (lib_origin !graph (nat_of_int (List.length !graph + 1)) l nm)) (atoms names))
   | "ideq", [L isets; mls; names] ->
       (* IdEq.literal_probe: per ml (visible name of an mlit/elit macro; the SPEC says which library D defines it) one group, per name
-         three digits: identifier_eq of the name in the program against D's lit / else / => *)
+         four digits: identifier_eq of the name in the program against D's lit / else / => / ulit *)
       let is = List.map iset_of isets in
-      let st = int_of_nat stride in
-      let macro_defs = ["m1"; "wif"; "wifx"; "w0"; "erw"; "lit"; "mlit"; "elit"] in
-      let plain (c : nat) : bool =
-        match c with
-        | O -> false
-        | S k ->
-            let k = int_of_nat k in
-            let j = k / st and d = k mod st in
-            (match List.nth_opt !graph j with
-             | Some ld ->
-                 if List.map ostring_of_coq ld.ld_name = ["scheme"; "base"] then false
-                 else (match List.nth_opt ld.ld_defs d with
-                       | Some m -> not (List.mem (ostring_of_coq m) macro_defs)
-                       | None -> false)
-             | None -> false) in
+      (* the environments of the model hold no undefined cells; by theorem reference_does_not_change_identifier_eq the repaired
+         function does not depend on the ones chibi's earlier references created *)
+      let undef (_ : nat) : bool = false in
       let c = coq_of_ostring in
       oconcat " | " (List.map (fun ml ->
         match program_origin !graph is ml with
         | Origin (dl, _) ->
             oconcat " " (List.map (fun nm ->
-              oconcat "" (List.map (fun lit -> if literal_probe plain !graph is dl (c lit) nm then "1" else "0") ["lit"; "else"; "=>"])) (atoms names))
-        | _ -> oconcat " " (List.map (fun _ -> "???") (atoms names))) (atoms mls))
+              oconcat "" (List.map (fun lit -> if literal_probe undef !graph is dl (c lit) nm then "1" else "0") ["lit"; "else"; "=>"; "ulit"])) (atoms names))
+        | _ -> oconcat " " (List.map (fun _ -> "????") (atoms names))) (atoms mls))
   | "history", [L defs; L reqs] ->
       (* Importers.run from the booted world: requests are (kind lib); the module table belongs to the world, so the
          kind of importer (second standard environments included) must not matter *)
